@@ -35,7 +35,7 @@ func (c07) Batches(tier string, seed uint64) []core.Batch {
 	b = append(b, spread("corrupt", 8, tierN(tier, 6000, 40000))...)
 	b = append(b, spread("raw", 8, tierN(tier, 6000, 50000))...)
 	b = append(b, spread("huge", tierN(tier, 1, 4), 1)...)
-	b = append(b, spread("corpus", 4, 0)...) // this machine's dpkg database, in slices of 40 stanzas
+	b = append(b, spread("corpus", 4, 0)...)                                      // this machine's dpkg database, in slices of 40 stanzas
 	b = append(b, core.Batch{Name: "volume", N: tierN(tier, 400_000, 1_500_000)}) // one case, one process: see volume.go
 	return append(b, conc(tierN(tier, 40, 300), "doc")...)
 }
